@@ -6,3 +6,8 @@ reg("C03", "exploration",
     "Generated plans/caps/cooldown histories are fed to the real t4_filter; every result is judged by envelope predicates, an independent exact-rational reference pipeline, exact equality over permutations of the delta list (all n! up to 6), argument snapshots, repeat calls and re-calls after unrelated calls on fresh and on long-lived in-place-edited config objects. Sampled, not exhaustive: held on the cases observed.",
     "Trusts the harness' reference pipeline and ckey construction; NaN/inf inputs and ':' inside target ids are outside the generated domain.",
     "envelope assertions + reference-model differential + permutation twin on the real function")
+
+reg("C07", "exploration",
+    "The round-trip law apply_delta(base, compute_delta(base, cur)) == cur is checked under type-exact canonical JSON equality on every ordered pair of an enumerated universe of 1266 small objects (dotted/empty keys, every JSON scalar type, lists, nested objects; ~1.6M pairs, exhaustive for that universe) plus random payload-shaped pairs; the on-disk path (write_snapshot_auto delta mode + read_snapshot, both call forms) is run against ten baseline conditions (present, deleted with/without sidecar, truncated, garbage, empty, header-only, wrong shape, directory, temp-file decoys) and must return the payload, {} or raise - never another object.",
+    "Only codec 'none' exists in the image (no zstandard). Trusts the harness' canonical-JSON encoder. A well-formed baseline with foreign content under the same etag is not generated.",
+    "round-trip oracle over exhaustive small universe + fault-conditioned disk round trips on the real codec/reader/writer")
